@@ -2,6 +2,7 @@ package main
 
 import (
 	"encoding/json"
+	"fmt"
 	"os"
 	"path/filepath"
 
@@ -36,6 +37,11 @@ func (c *Ctx) nsFixtures() {
 		c.Fixture("nsr", rule, true, func(p *load.Program, tb *kinds.Table) *report.RuleResult {
 			r := fn(p, tb, "pkg/visitor/nsresolver")
 			r.Merge(fn(p, tb, "pkg/visitor/badresolver"), "bad:")
+			if os.Getenv("VERIF_FXDEBUG") != "" {
+				for _, o := range r.Obls {
+					fmt.Fprintf(os.Stderr, "fxdebug %s %s %s: %s\n", rule, o.Key, o.Status, o.Detail)
+				}
+			}
 			return r
 		})
 	}
@@ -56,6 +62,13 @@ func (c *Ctx) nsFixtures() {
 	})
 	both("special-names", func(p *load.Program, tb *kinds.Table, rel string) *report.RuleResult {
 		return visitors.SpecialNames(p, rel)
+	})
+	both("resolve-spec", func(p *load.Program, tb *kinds.Table, rel string) *report.RuleResult {
+		r, decided := visitors.ResolveSpec(p, rel)
+		if !decided {
+			r.Unknown("evaluation", rel, "", "undecided:idiom: the resolver's functions could not be evaluated")
+		}
+		return r
 	})
 	c.Fixture("nsr", "who-writes-resolved", true, func(p *load.Program, tb *kinds.Table) *report.RuleResult {
 		w, err := effects.NewWorld(p)
@@ -116,8 +129,25 @@ func init() {
 			c.Add(visitors.NameSinks(p, tb, slots, nsRel, nsRecv))
 			c.Add(visitors.NsDeclarations(p, tb, nsRel, nsRecv))
 			c.Add(visitors.NamespaceSwitch(p, tb, nsRel, nsRecv))
-			c.Add(visitors.AliasKeyAgreement(p, nsRel))
-			c.Add(visitors.SpecialNames(p, nsRel))
+			// what AddAlias / ResolveName compute is decided by evaluation when they can be evaluated; the
+			// structural rules then only add what they recognise
+			rs, decided := visitors.ResolveSpec(p, nsRel)
+			aka, spn := visitors.AliasKeyAgreement(p, nsRel), visitors.SpecialNames(p, nsRel)
+			if decided {
+				c.Add(rs)
+				clean := true
+				for _, o := range rs.Obls {
+					if o.Status != report.Discharged {
+						clean = false
+					}
+				}
+				if clean {
+					visitors.Yield(aka, "resolve-spec")
+					visitors.Yield(spn, "resolve-spec")
+				}
+			}
+			c.Add(aka)
+			c.Add(spn)
 			c.Add(visitors.ItemIndependence(p, nsRel))
 			if w := c.world(p, "who-writes-resolved"); w != nil {
 				c.Add(effects.WhoWritesMapField(w, "who-writes-resolved", nsRel, "ResolvedNames", "pkg/visitor/nsresolver.NamespaceResolver.AddNamespacedName", "pkg/visitor/nsresolver.NamespaceResolver.ResolveName"))
